@@ -1,0 +1,34 @@
+use super::Archetype;
+use crate::{
+    registry::Registry,
+    verif::ArchetypeDump,
+};
+use alloc::vec::Vec;
+
+impl<R> Archetype<R>
+where
+    R: Registry,
+{
+    pub(crate) fn verif_dump(&self) -> ArchetypeDump {
+        let mut entity_identifiers = Vec::with_capacity(self.length);
+        for row in 0..self.length {
+            // SAFETY: Rows `0..self.length` of the entity identifier column are initialized.
+            let identifier = unsafe { *self.entity_identifiers.0.add(row) };
+            entity_identifiers.push((identifier.index, identifier.generation));
+        }
+        ArchetypeDump {
+            identifier_addr: self.identifier.verif_addr(),
+            identifier_capacity: self.identifier.verif_capacity(),
+            // SAFETY: The identifier is owned by this archetype and outlives the slice.
+            identifier_bytes: unsafe { self.identifier.as_slice() }.to_vec(),
+            entity_identifiers_raw: (self.entity_identifiers.0 as usize, self.entity_identifiers.1),
+            entity_identifiers,
+            components_raw: self
+                .components
+                .iter()
+                .map(|&(pointer, capacity)| (pointer as usize, capacity))
+                .collect(),
+            length: self.length,
+        }
+    }
+}
